@@ -1,9 +1,10 @@
-\* C03 quick (wide): 2 threads; instances new(), shared(), shared() (storages 1,0,0); keys a,b with property maps {a:1},{a:2,b:1};
-\* kinds push/root/disabled/current; forms guard/call/with/in_future; <= 2 frames, 1 task, nesting <= 2, panic unwinding; every transition replayed.
+\* C03 quick (wide): 2 threads; instances default(), default(), setup()-built runtime context, shared(), shared() (storages 1,2,3,0,0);
+\* keys a,b with property maps {a:1},{a:2,b:1}; kinds push/root/disabled/current; forms guard/call/with/in_future; <= 2 frames, 1 task, nesting <= 2, panics; every transition replayed.
 SPECIFICATION Spec
 CONSTANTS
     NThreads = 2
-    StoreOf <- MC_Store3
+    StoreOf <- MC_StoreQ
+    InstKind <- MC_KindQ
     NKeys = 2
     PropChoices <- MC_Props2
     Kinds <- MC_AllKinds
